@@ -1,5 +1,6 @@
 import Mathlib.Tactic.NormNum
 import OnlVerif.Lemmas.Rt
+import OnlVerif.Lemmas.GenRt20
 /-!
 # C20 — real-time pacing never runs ahead of the wall clock and alters no result
 
@@ -113,6 +114,47 @@ theorem sleep_loop_terminates (peek : κ → Option ℚ) (kstep : κ → ρ) (s 
   rw [hp]
   simp only [strictPhase, hs, Bool.false_eq_true, if_false, sleepThenStep, h]
 
+/-! ### The source, re-translated on every run, *is* the model (bridge theorems)
+
+`Generated/Rt20.lean` is rewritten by `py2lean` (`more.py`) from the current `onl/sim/rt.py` before this file is compiled:
+`RealtimeEnvironment.__init__`, `sync` and `step` as functions over an explicit list of `monotonic()` readings, in the order
+in which CPython takes them.  `GenRt20.rtObj` reads a model state as the Python object, `GenRt20.toModel` reads the way the
+translated `step` ends (`raise EmptySchedule()`, `raise RuntimeError(f'…{delta:.3f}…')`, the final `Environment.step(self)`)
+as a result of `rtStep`.  The statements hold for **every** scalar type (`[Num α]`: `ℚ` of the theorems above and the `Float`
+the driver runs at), every kernel (`peek`, `kstep`), every state and every list of readings. -/
+
+/-- **`RealtimeEnvironment.step` as written in the source is the model's `rtStep`**: `EmptySchedule` iff `peek()` is
+`Infinity`; the due instant `real_start + (evt_time - env_start) * factor`; in strict mode one reading for the test
+`monotonic() - real_time > factor` and a second one for the reported `delta`; then one reading per iteration of the sleep
+loop, which is left at the first reading with `real_time - reading <= 0` and sleeps `real_time - reading` otherwise; then
+`Environment.step(self)` on the untouched kernel state.  (A flipped comparison, a reading more or less, another order of the
+readings, a changed due instant make this fail to compile.) -/
+theorem rt_step_generated_eq_model {α : Type} [Num α] (peek : κ → Option α) (kstep : κ → ρ) (s : RtState α κ)
+    (clock : List α) :
+    GenRt20.toModel kstep s.k (Gen.RealtimeEnvironment.step (GenRt20.rtObj s) (peek s.k) clock) =
+      some (rtStep peek kstep s clock) :=
+  GenRt20.step_eq peek kstep s clock
+
+/-- **`sync()` as written in the source is the model's `sync`**: it takes one reading and stores it in `real_start`,
+nothing else (without a reading left the run is `starved`, as in `rtRun`). -/
+theorem rt_sync_generated_eq_model {α : Type} [Num α] (s : RtState α κ) (clock : List α) :
+    Gen.RealtimeEnvironment.sync (GenRt20.rtObj s) clock =
+      match clock with
+      | [] => .starved
+      | c :: rest => .returned (GenRt20.rtObj (sync s c)) rest :=
+  GenRt20.sync_eq s clock
+
+/-- **`__init__` as written in the source is the model's `create`**: whatever the object held before, after
+`Environment.__init__(self, initial_time)` the constructor sets `env_start = initial_time`, takes one reading for
+`real_start`, and stores `factor` and `strict`. -/
+theorem rt_init_generated_eq_model {α : Type} [Num α] (o : Gen.RtObj α) (initialTime factor : α) (strict : Bool) (k : κ)
+    (clock : List α) :
+    Gen.RealtimeEnvironment.init o initialTime factor strict clock =
+      match clock with
+      | [] => .starved
+      | c :: rest => .returned (GenRt20.rtObj (create initialTime factor strict c k)) rest :=
+  GenRt20.init_eq o initialTime factor strict k clock
+
 /-! ### non-vacuity (exact arithmetic): `initial_time = 2`, `factor = 1/2`, `real_start = 100`, next occurrence at 5,
 hence due at `100 + (5 - 2)/2 = 101.5` -/
 
@@ -150,5 +192,14 @@ example : (rtRun (fun k : Nat => if k = 0 then none else some (k : ℚ)) (fun k 
       [.step, .sync, .step] { realStart := 0, envStart := 0, factor := 1, strict := false, k := 2 }
       [2, 10, 11]).results = [1, 0] := by
   norm_num [rtRun, rtStep, sync, strictPhase, dueTime, sleepThenStep, sleepLoop, zero_eq]
+
+/-- the translated `step` on the first example above: one reading for the strict test, two sleeps, delegation at 101.5 -/
+example : Gen.RealtimeEnvironment.step (GenRt20.rtObj (exS true)) (some 5) [101, 101, 405/4, 203/2, 999] =
+    .delegated [1/2, 1/4] (203/2) [999] := by
+  norm_num [Gen.RealtimeEnvironment.step, Gen.RealtimeEnvironment.step_loop1, GenRt20.rtObj, exS, zero_eq]
+
+/-- … and on the too-slow example: `RuntimeError` (5) with `delta` from the second reading -/
+example : Gen.RealtimeEnvironment.step (GenRt20.rtObj (exS true)) (some 5) [1021/10, 103, 7] = .raisedWith 5 (3/2) [7] := by
+  norm_num [Gen.RealtimeEnvironment.step, GenRt20.rtObj, exS]
 
 end C20
